@@ -93,7 +93,15 @@ def run(chk, scratch):
     for seed in seeds:
         d = os.path.join(scratch, "w%d" % seed)
         w = world2.rich_world(seed, n_chroms=4, genes_per_chrom=3, reads_per_t=6, hidden_cov=5, zoo=world2.ZOO_ALL)
-        pipeline.write_world(w, d)
+        # feature ids are arbitrary strings: one expressed gene (and its transcripts) has an id that begins with an underscore, another one a
+        # lower-case id that sorts after it (the statistics lines of the tables begin with TWO underscores)
+        id_map = {}
+        expressed_ = [g_ for g_ in w.genes if g_.transcripts and not g_.id.startswith(("P", "X", "Z")) and g_.id != "G1_1"]
+        for g_, (gn, tn) in zip(expressed_[:2], (("_7SK_like", "_7SK_like.t%d"), ("zeta_gene", "zeta_gene.t%d"))):
+            id_map[g_.id] = gn
+            for k_, t_ in enumerate(g_.transcripts):
+                id_map[t_.id] = tn % (k_ + 1)
+        pipeline.write_world(w, d, id_map=id_map)
         # every second mapped record: input of an EARLIER run into the same output folder (see below)
         w.write_bam(os.path.join(d, "half.bam"), reads=[r for i, r in enumerate(w.reads) if i % 2 == 0])
         lst, per = pipeline.write_experiments(w, d, EXPERIMENTS, lambda e, k, r: (k % 6 in ((0, 1, 2), (3, 4), (5,))[e]) if not r.flag & 4 else k % 2 == e)
